@@ -1,6 +1,7 @@
 package checks
 
 import (
+	"sync"
 	"fmt"
 
 	"github.com/ja7ad/otp"
@@ -245,6 +246,44 @@ func c04(r *ev.Run, pairMode bool) {
 				}
 			}
 		}
+	}
+	// key-length sweep: every key length 1..140 bytes x hash x windows 0, 1, 3, 10 (see C03)
+	{
+		var n int64
+		type kl struct{ L, a int }
+		var kls []kl
+		for L := 1; L <= 140; L++ {
+			for a := 0; a < 3; a++ {
+				kls = append(kls, kl{L, a})
+			}
+		}
+		var mu sync.Mutex
+		ev.Par(len(kls), func(i int) {
+			L, a := kls[i].L, kls[i].a
+			key := patt(L, byte(5*L+a))
+			sec := ref.B32Encode(key)
+			var local int64
+			for _, sk := range []uint64{0, 1, 3, 10} {
+				for _, t := range []int64{1111111109, 1 << 40} {
+					step := ref.Step(t, 30)
+					window := totpWindow(key, step, sk, 6, a)
+					subs := append([]string{ref.HOTP(key, step-sk-1, 6, a), ref.HOTP(key, step+sk+1, 6, a)}, window...)
+					for _, code := range subs {
+						c := c04Case{sec, code, t, L % 4, 30, sk, 6, a, false}
+						obs, bad := totpValidate(c, key, window, pairMode)
+						local++
+						if bad != "" {
+							r.Fail(scen, fmt.Sprintf("key-length sweep: %d-byte key algo=%d skew=%d t=%d %s", L, a, sk, t, bad), c, bad, obs)
+						}
+					}
+				}
+			}
+			mu.Lock()
+			n += local
+			mu.Unlock()
+		})
+		r.Eval(n)
+		r.Set("key_length_sweep", map[string]any{"lengths": "1..140", "hashes": 3, "windows": []int{0, 1, 3, 10}, "validations": n})
 	}
 	r.Set("configs", len(cfgs))
 	ev.Par(len(cfgs), func(i int) {
